@@ -302,6 +302,36 @@ func execStruct(vec J, out *Writer) {
 			rec["redecoded"] = J{}
 		}
 		out.Put(rec)
+	case "rt2":
+		// one receiver, two documents: marshal(first) then marshal(second) decoded into the SAME struct (the usual
+		// `for { dec.Decode(&x) }` loop).  Every field the second text carries must hold the second value.
+		t := vec["type"].(string)
+		rec := J{"ev": "rt2", "in": vec, "panic": false, "ok": false, "decoded": J{}}
+		func() {
+			defer func() {
+				if r := recover(); r != nil {
+					rec["panic"] = true
+				}
+			}()
+			var texts [2]bytes.Buffer
+			for i, key := range []string{"first", "second"} {
+				p := newProbe(t)
+				fill(p, t, M(vec[key]))
+				if err := control.Marshal(&texts[i], p); err != nil {
+					return
+				}
+			}
+			q := newProbe(t)
+			if err := control.Unmarshal(q, bytes.NewReader(texts[0].Bytes())); err != nil {
+				return
+			}
+			if err := control.Unmarshal(q, bytes.NewReader(texts[1].Bytes())); err != nil {
+				return
+			}
+			rec["ok"] = true
+			rec["decoded"] = dump(q, t)
+		}()
+		out.Put(rec)
 	case "passthru":
 		// document with unknown fields -> P5 -> change the known fields -> Marshal
 		doc := S(vec["doc"])
